@@ -11,7 +11,7 @@
                    1e-9 of the sum of magnitudes (float64 addition is not associative). *)
 From VLib Require Import CaseLib.
 From Coq Require Import SpecFloat.
-From C06 Require Import Model ModelFloat.
+From C06 Require Import Model ModelFloat ModelLimits.
 Open Scope Z_scope.
 
 Inductive fl := FNaN | FInf | FNum (m e : Z).
@@ -102,7 +102,19 @@ Inductive case :=
    the real MergeQPRs in the shape of t; o = Min/Max/Sum bit patterns and Total of every bin, bucket values *)
 | CAggF (t : ftree) (q : query) (o : fout)
 (* does the search over the fractions of t fail (parseNum error: NaN / Inf / unparsable field token)? *)
-| CFErr (t : ftree) (q : query) (impl_err : bool).
+| CFErr (t : ftree) (q : query) (impl_err : bool)
+(* one REAL SourcedNodeIterator (uniqSourcesLimit = limit) over the sourced OR tree of the given LID lists (source i =
+   list i, TID tids[i], GetValByTID = vtab): ConsumeTokenSource for lids in order up to the first failure
+   (impl_cons: found source / failed), then ValueBySource for srcs (impl_vals: value ids) *)
+| CIter (limit : N) (tids : list N) (vtab : list (N * N)) (lidlists : list (list N)) (lids : list N) (srcs : list N)
+        (impl_cons : list (option nat * bool)) (impl_vals : list N)
+(* does a search fail with ErrTooManyUniqValues under the aggregation limits lim?  parts = its aggregations, each with
+   the fractions it visits as the leaves (documents as that aggregation sees them; the field token's ID stands in
+   the place of the value) *)
+| CLimErr (lim : limits) (parts : list (query * mtree)) (impl_err : bool)
+(* parseNum on one token: bits = what strconv.ParseFloat (called by the harness) says about the token (NaN pattern =
+   syntax error, +-Inf = out of range); impl_ok / impl_bits = verdict and value of the real parseNum *)
+| CParse (bits : Z) (impl_ok : bool) (impl_bits : Z).
 
 (* ---------------------------------------------------------------- model output = implementation output *)
 
@@ -193,8 +205,29 @@ Definition aggf_agrees (t : ftree) (q : query) (o : fout) : bool :=
   negb (tree_err q t) && orders_ok q t && values_valid t &&
   forallb (fbin_agrees q t) (fo_bins o) && forallb (fbucket_agrees q t) (fo_buckets o).
 
+(* ---- limits, cache, parseNum *)
+Definition cons_eqb (a b : option nat * bool) : bool :=
+  Bool.eqb (snd a) (snd b) && (snd a || option_eqb Nat.eqb (fst a) (fst b)).
+
+Definition iter_agrees (limit : N) (tids : list N) (vtab : list (N * N)) (lidlists : list (list N)) (lids srcs : list N)
+           (ic : list (option nat * bool)) (iv : list N) : bool :=
+  let '(mc, mv) := iter_run key_code limit tids vtab lidlists lids srcs in
+  list_eqb cons_eqb mc ic && list_eqb N.eqb mv iv.
+
+(* parseNum given the oracle's verdict: accepted iff finite, and then that very value *)
+Definition parse_num (bits : Z) : option Z := if bits_finite bits then Some (bits_of_sf (sf_of_bits bits)) else None.
+
+Definition parse_agrees (bits : Z) (ok : bool) (ibits : Z) : bool :=
+  match parse_num bits with
+  | Some b => ok && (ibits =? b)
+  | None => negb ok
+  end.
+
 Definition case_agrees (c : case) : bool :=
   match c with
+  | CIter limit tids vtab lidlists lids srcs ic iv => iter_agrees limit tids vtab lidlists lids srcs ic iv
+  | CLimErr lim parts e => Bool.eqb (search_fails lim parts) e
+  | CParse bits ok ibits => parse_agrees bits ok ibits
   | CAggF t q o => aggf_agrees t q o
   | CFErr t q e => Bool.eqb (tree_err q t) e
   | CAgg scale exact t q o => agg_agrees scale exact t q o
@@ -434,8 +467,77 @@ Definition ferr_spec (t : ftree) (q : query) (e : bool) : bool :=
                                match fd_fld d with Some (_, b) => negb (bits_finite b) | None => false end)
                       (ftree_docs t)).
 
+(* ---- ValueBySource: every answer is the value of the source's own token (no cache in the statement);
+   ConsumeTokenSource: the source of the list that holds the LID; fails exactly when the limit is on and the number of
+   distinct sources found so far exceeds it, and nothing is consumed after a failure *)
+Fixpoint find_src (lidlists : list (list N)) (lid : N) (i : nat) : option nat :=
+  match lidlists with
+  | [] => None
+  | l :: r => if existsb (N.eqb lid) l then Some i else find_src r lid (S i)
+  end.
+
+Fixpoint cons_spec (limit : N) (lidlists : list (list N)) (lids : list N) (found : list nat)
+         (impl : list (option nat * bool)) : bool :=
+  match lids, impl with
+  | [], [] => true
+  | l :: r, (o, e) :: ir =>
+      let s := find_src lidlists l 0 in
+      let found' := match s with Some x => x :: found | None => found end in
+      let expect := (0 <? limit)%N && negb (is_none s) && (limit <? nkeys found')%N in
+      Bool.eqb e expect &&
+      (if e then match ir with [] => true | _ => false end
+       else option_eqb Nat.eqb o s && cons_spec limit lidlists r found' ir)
+  | _, _ => false
+  end.
+
+Definition iter_spec (limit : N) (tids : list N) (vtab : list (N * N)) (lidlists : list (list N)) (lids srcs : list N)
+           (ic : list (option nat * bool)) (iv : list N) : bool :=
+  cons_spec limit lidlists lids [] ic &&
+  list_eqb N.eqb iv (map (fun s => val_of vtab (tid_of tids s)) srcs).
+
+(* ---- limits: computed directly from the documents.  One fraction fails iff
+   - the field / group has more tokens in the fraction (ALL its documents) than MaxTIDsPerFraction, or
+   - the SELECTED documents carry more distinct group tokens than MaxGroupTokens / field tokens than MaxFieldTokens, or
+   - the selected documents touch more bins than MaxGroupTokens
+   (each limit only when > 0); the search fails iff one of the fractions it visits fails for one of its aggregations *)
+Fixpoint dedup {A} (eqb : A -> A -> bool) (l : list A) : list A :=
+  match l with
+  | [] => []
+  | x :: r => if existsb (eqb x) r then dedup eqb r else x :: dedup eqb r
+  end.
+
+Definition ndist {A} (eqb : A -> A -> bool) (l : list A) : N := N.of_nat (length (dedup eqb l)).
+
+Definition somes {A B} (f : A -> option B) (l : list A) : list B :=
+  flat_map (fun x => match f x with Some y => [y] | None => [] end) l.
+
+Definition frac_fails_spec (lim : limits) (q : query) (ds : list doc) : bool :=
+  let D := filter (selected (q_from q) (q_to q)) ds in
+  (uses_field q && over (l_tids lim) (ndist Z.eqb (somes d_fld ds))) ||
+  (uses_group q && over (l_tids lim) (ndist N.eqb (somes d_grp ds))) ||
+  (uses_group q && over (l_group lim) (ndist N.eqb (somes d_grp D))) ||
+  (uses_field q && over (l_field lim) (ndist Z.eqb (somes d_fld D))) ||
+  over (l_group lim) (ndist key_eqb (flat_map (doc_keys q) D)).
+
+Fixpoint tree_leaves (t : mtree) : list (list doc) :=
+  match t with
+  | Leaf ds => [ds]
+  | Node l r => tree_leaves l ++ tree_leaves r
+  end.
+
+Definition limerr_spec (lim : limits) (parts : list (query * mtree)) (e : bool) : bool :=
+  Bool.eqb e (existsb (fun qt => existsb (frac_fails_spec lim (fst qt)) (tree_leaves (snd qt))) parts).
+
+(* a token contributes the value v iff strconv.ParseFloat accepts it with the finite value v: accepted <-> finite,
+   and the value is ParseFloat's, bit for bit (any other accepted syntax or any other value fails here) *)
+Definition parse_spec (bits : Z) (ok : bool) (ibits : Z) : bool :=
+  Bool.eqb ok (sf_finite (sf_of_bits bits)) && (negb ok || (ibits =? bits mod 2 ^ 64)).
+
 Definition case_spec_ok (c : case) : bool :=
   match c with
+  | CIter limit tids vtab lidlists lids srcs ic iv => iter_spec limit tids vtab lidlists lids srcs ic iv
+  | CLimErr lim parts e => limerr_spec lim parts e
+  | CParse bits ok ibits => parse_spec bits ok ibits
   | CAggF t q o => aggf_spec t q o
   | CFErr t q e => ferr_spec t q e
   | CAgg scale exact t q o => agg_spec scale exact t q o
